@@ -1583,6 +1583,59 @@ func (x *Exec) applyContractTail(cfg *Config, f *Frame, fn *ssa.Function, c *Fun
 			cfg.st.assume(Eq(rt.T, x.pureTerm(fn, ats)))
 		}
 	}
+	// a contract whose postcondition speaks about held(m) may have changed
+	// whether m is held: forget it for exactly those mutexes before the
+	// postcondition is assumed (otherwise "returns holding m" followed by
+	// "releases m" contradict each other on the unchanged $held array and
+	// every later obligation on that path is vacuous)
+	var heldArgs []Term
+	var collect func(e Expr, inOld bool)
+	collect = func(e Expr, inOld bool) {
+		switch ee := e.(type) {
+		case ECall:
+			if ee.Fn == "held" && len(ee.Args) == 1 && !inOld {
+				func() {
+					defer func() {
+						if r := recover(); r != nil {
+							if _, isU := r.(unsupportedErr); !isU {
+								panic(r)
+							}
+						}
+					}()
+					heldArgs = append(heldArgs, x.specTerm(env, ee.Args[0]))
+				}()
+				return
+			}
+			for _, a := range ee.Args {
+				collect(a, inOld || ee.Fn == "old")
+			}
+		case EUnary:
+			collect(ee.X, inOld)
+		case EBinary:
+			collect(ee.L, inOld)
+			collect(ee.R, inOld)
+		case ECond:
+			collect(ee.C, inOld)
+			collect(ee.A, inOld)
+			collect(ee.B, inOld)
+		case EQuant:
+			// held() under a binder: not handled (none in use)
+		}
+	}
+	for _, e := range c.Ensures {
+		collect(e.E, false)
+	}
+	if len(heldArgs) > 0 {
+		cur := x.heldArr(cfg.st)
+		nh := x.d.Fresh("held", cur.Sort)
+		m := Term{"m!hv", SInt}
+		var ne []Term
+		for _, t := range heldArgs {
+			ne = append(ne, Neq(m, t))
+		}
+		cfg.st.assume(Forall([]Term{m}, Implies(And(ne...), Eq(Select(nh, m), Select(cur, m))), []Term{Select(nh, m)}))
+		cfg.st.heap["$held"] = nh
+	}
 	for _, e := range c.Ensures {
 		cfg.st.assume(x.specBool(env, e.E))
 	}
